@@ -551,6 +551,102 @@ func TestVerifC07(t *testing.T) {
 	}
 	if len(confirm) == 0 {
 		vh07OpenProbe(out)
+		vh07StaleProbe(out)
+	}
+}
+
+// vh07StaleProbe: the node a handler locks for a child must be the node the name denotes WHEN THE BACKEND CALL RUNS.
+// Three requests: RenameAt(f -> x) in /d is parked inside the backend (the server holds its rename lock);
+// Tunlinkat(/d, x) arrives on a second connection and has to wait for the rename; the rename is released and moves
+// the entry (with a live fid) to x; the unlink's UnlinkAt is parked in the backend; GetAttr through the fid of
+// the moved entry is sent.  UnlinkAt is documented exclusive on the entry: GetAttr entering the backend while
+// UnlinkAt is parked is an overlap (an event).  Not entering within the window is what a correct server does.
+func vh07StaleProbe(out *vhOut) {
+	for rep := 0; rep < 3; rep++ {
+		fs := vhgNewFS()
+		vh07Seed(fs)
+		env, err := vhgStart(fs, 2)
+		if err != nil {
+			continue
+		}
+		o := map[string]interface{}{"kind": "staleprobe", "key": fmt.Sprintf("staleprobe|%d", rep), "valid": false, "entered": false, "unlink_parked": false}
+		func() {
+			ra, err := vhgAttach(env.clients[0])
+			if err != nil {
+				return
+			}
+			rb, err := vhgAttach(env.clients[1])
+			if err != nil {
+				return
+			}
+			d1, err := vh07Walk(ra, "/d")
+			if err != nil {
+				return
+			}
+			moved, err := vh07Walk(ra, "/d/f")
+			if err != nil {
+				return
+			}
+			d2, err := vh07Walk(rb, "/d")
+			if err != nil {
+				return
+			}
+			g1 := fs.arm("RenameAt", "/d", 0)
+			rdone := make(chan error, 1)
+			go func() { rdone <- d1.RenameAt("f", d1, "x") }()
+			select {
+			case <-g1.reached:
+			case <-time.After(5 * time.Second):
+				return
+			}
+			udone := make(chan error, 1)
+			go func() { udone <- d2.UnlinkAt("x", 0) }()
+			time.Sleep(60 * time.Millisecond) // the unlink reaches the rename lock and waits there (if it has not yet, nothing is exposed: no alarm)
+			g2 := fs.arm("UnlinkAt", "/d", 0)
+			close(g1.release)
+			select {
+			case <-rdone:
+			case <-time.After(5 * time.Second):
+				return
+			}
+			select {
+			case <-g2.reached:
+				o["unlink_parked"] = true
+			case <-udone: // answered without reaching the backend
+				return
+			case <-time.After(5 * time.Second):
+				return
+			}
+			o["valid"] = true
+			from := fs.logLen()
+			gdone := make(chan struct{})
+			go func() { moved.GetAttr(AttrMaskAll); close(gdone) }()
+			deadline := time.Now().Add(400 * time.Millisecond)
+			for time.Now().Before(deadline) {
+				hit := false
+				for _, e := range fs.snapshot()[from:] {
+					if e.Enter && e.Method == "GetAttr" {
+						hit = true
+					}
+				}
+				if hit {
+					o["entered"] = true
+					break
+				}
+				time.Sleep(5 * time.Millisecond)
+			}
+			close(g2.release)
+			select {
+			case <-udone:
+			case <-time.After(5 * time.Second):
+			}
+			select {
+			case <-gdone:
+			case <-time.After(5 * time.Second):
+			}
+		}()
+		env.stop(5 * time.Second)
+		out.Emit(o)
 	}
 }
 
